@@ -360,6 +360,30 @@ pub fn run(args: &Args) -> i32 {
         .reduce(Tally::default, Tally::merge);
     rec.sub("paths", json!({"instants": ts.len(), "offsets": offs.len(), "evaluations": t1.evals, "out_of_range": t1.nontrivial}));
     total = total.merge(t1);
+    // days around numeric thresholds of the year, the day count (relative to several epochs) and the second count: every
+    // construction path at three seconds of each day x five offsets
+    {
+        let ws = crate::cal::threshold_windows(&cyc, thorough);
+        let t = ws
+            .par_iter()
+            .map(|&(d0, n)| {
+                let mut tl = Tally::default();
+                for day in d0..d0 + n {
+                    for s in [0i64, 43_200, 86_399] {
+                        let t = day * 86_400 + s;
+                        for off in [0i32, 3600, -86_399, i32::MAX, i32::MIN + 1] {
+                            if let Err(m) = guard(|| check_paths(&cyc, t, 7, off, &rec, &mut tl)) {
+                                rec.violation("paths", json!({"kind":"paths","t":t,"ns":7,"off":off,"via":"*"}), json!("no panic"), json!(m));
+                            }
+                        }
+                    }
+                }
+                tl
+            })
+            .reduce(Tally::default, Tally::merge);
+        rec.sub("threshold_days", json!({"windows": ws.len(), "evaluations": t.evals, "out_of_range": t.nontrivial}));
+        total = total.merge(t);
+    }
     let t2 = sweep_chains(&cyc, &rec);
     rec.sub("chains", json!({"evaluations": t2.evals}));
     total = total.merge(t2);
